@@ -155,3 +155,21 @@ def explore(runner, params, bound, procs=None):
             agg.merge(a)
     info['wall_s'] = round(time.time() - t0, 2)
     return agg, info
+
+
+
+def canon_order(calls):
+    """Hashable form of a backend call sequence. Snapshot object names depend on the worker's scratch path (through
+    the file paths recorded in the snapshot), so they are replaced by the index of their first occurrence; chunk names
+    are content-derived and stay as they are. Two executions with the same order of calls then count as one order
+    whichever worker process ran them."""
+    idx = {}
+    out = []
+    for c in calls:
+        kind, name = c[0], c[1]
+        if isinstance(name, str) and name.startswith('snapshots/'):
+            if name not in idx:
+                idx[name] = f'snapshots/#{len(idx)}'
+            name = idx[name]
+        out.append((kind, name))
+    return hash(tuple(out))
